@@ -25,13 +25,33 @@ def stripped_cargo_toml(repo=REPO):
     return t
 
 
+import threading
+_DEPS_LOCK = threading.Lock()
+
+
 def deps_dir(repo=REPO, log=None):
     """Build (or reuse) the dependency rlibs with Verus' toolchain. Keyed by Cargo.lock + toolchain."""
     lock = open(os.path.join(repo, 'Cargo.lock')).read()
     h = hashlib.sha256((lock + stripped_cargo_toml(repo).split('[profile')[0] + TOOLCHAIN).encode()).hexdigest()[:16]
     d = os.path.join(CACHE, 'deps-' + h)
     stamp = os.path.join(d, 'ok')
+    with _DEPS_LOCK:
+        _build_deps(repo, d, stamp)
+    dd = os.path.join(d, 'target', 'debug', 'deps')
+    ext = []
+    for c in DEPS:
+        cands = sorted(f for f in os.listdir(dd) if re.match(r'lib%s-[0-9a-f]+\.rlib$' % c, f))
+        if not cands:
+            raise overlay.Undecided("dependency rlib missing: " + c)
+        ext += ['--extern', '%s=%s' % (c, os.path.join(dd, cands[0]))]
+    return dd, ext
+
+
+def _build_deps(repo, d, stamp):
+    """one build at a time per process (the two overlaid workspaces of a check are prepared concurrently); a concurrent
+    build by another process uses its own temporary directory and the first finished one is kept"""
     if not os.path.exists(stamp):
+        os.makedirs(CACHE, exist_ok=True)
         tmp = d + '.tmp%d' % os.getpid()
         shutil.rmtree(tmp, ignore_errors=True)
         os.makedirs(os.path.join(tmp, 'src'))
@@ -53,14 +73,6 @@ def deps_dir(repo=REPO, log=None):
                 os.rename(tmp, d)
             except OSError:
                 shutil.rmtree(tmp, ignore_errors=True)
-    dd = os.path.join(d, 'target', 'debug', 'deps')
-    ext = []
-    for c in DEPS:
-        cands = sorted(f for f in os.listdir(dd) if re.match(r'lib%s-[0-9a-f]+\.rlib$' % c, f))
-        if not cands:
-            raise overlay.Undecided("dependency rlib missing: " + c)
-        ext += ['--extern', '%s=%s' % (c, os.path.join(dd, cands[0]))]
-    return dd, ext
 
 
 class Workspace:
